@@ -112,6 +112,7 @@ func (e *Engine) schemaFor(fn *ssa.Function, prop string) *Contract {
 	con := &Contract{Key: key, LoopInv: map[int][]*Clause{}, HasBody: true, Schema: prop, FrameSkip: ghostFrameSkip}
 	if base := e.Contracts[key]; base != nil {
 		con.LoopInv = base.LoopInv
+		con.Lets = append(con.Lets, base.Lets...)
 	}
 	in := rv.inner()
 	pre := func() {
